@@ -6,6 +6,7 @@ import (
 	"sync"
 	"sync/atomic"
 	"time"
+	"unicode/utf8"
 
 	"github.com/cespare/xxhash/v2"
 	"github.com/ozontech/file.d/xtime"
@@ -164,14 +165,16 @@ func (h *heldMetricsStore[T]) DeleteOldMetrics(holdDuration time.Duration, delet
 }
 
 func (h *heldMetricsStore[T]) truncateLabels(lvs []string) {
-	if h.metricMaxLabelValueLength == 0 {
-		return
-	}
-
 	for i, label := range lvs {
-		if len(label) > h.metricMaxLabelValueLength {
-			lvs[i] = label[:h.metricMaxLabelValueLength]
+		if h.metricMaxLabelValueLength != 0 && len(label) > h.metricMaxLabelValueLength {
+			label = label[:h.metricMaxLabelValueLength]
 		}
+		// label values often come from events; prometheus panics on values
+		// that are not valid UTF-8 (truncation can split a rune as well)
+		if !utf8.ValidString(label) {
+			label = strings.ToValidUTF8(label, "\uFFFD")
+		}
+		lvs[i] = label
 	}
 }
 
